@@ -23,6 +23,7 @@ ASSUMPTIONS = [
     'binning clause judged only for native spacing <= 1/4 of the widest mid-point bin (narrower than the statement, see DESIGN.md); FluxBinner with implied (mid-point) widths',
     'own-grid clause is bit-equality; foreign points must lie between the two neighbouring native values (equal to the end value outside the native range)',
 ]
+RULE = RULE + ' ' + 'Also: observation layouts with unequal spacing of the bin centres (widest implied bin at the low or the high end).'
 REQUIRED = {'obs:widest-low': 0.02, 'obs:widest-high': 0.02, 'opacity:ktables': 0.15, 'grids:tie-for-largest': 0.04, 'obs:constant-R-wide': 0.08, 'grids:multi': 0.35, 'grids:single': 0.15, 'family:emission': 0.2, 'family:transmission': 0.2}
 
 
